@@ -17,16 +17,22 @@ unsafe impl RawMutex for CheckedLock {
         if self.locked.swap(true, Ordering::Acquire) {
             panic!("CheckedLock: lock() while already locked (re-entrant internal lock)");
         }
+        crate::common::tls::lock_delta(1);
     }
 
     fn try_lock(&self) -> bool {
-        !self.locked.swap(true, Ordering::Acquire)
+        let got = !self.locked.swap(true, Ordering::Acquire);
+        if got {
+            crate::common::tls::lock_delta(1);
+        }
+        got
     }
 
     unsafe fn unlock(&self) {
         if !self.locked.swap(false, Ordering::Release) {
             panic!("CheckedLock: unlock() without lock()");
         }
+        crate::common::tls::lock_delta(-1);
     }
 }
 
